@@ -42,6 +42,8 @@ def check_map(ctx, traces, area, kind, ar, t, w_frac, res, stream, backends):
     xmin, ymin, xmax, ymax = [float(v) for v in net.branch_gdf.total_bounds]
     w = max(xmax - xmin, ymax - ymin) / w_frac
     case = {"stream": stream, "t": t, "traces": lines(traces), "areas": area_rows([area]), "width": w, "width_fraction": w_frac}
+    if xmax == xmin or ymax == ymin:
+        case["finding_key"] = F11_KEY  # zero extent along an axis: the grid has no cells (known finding F11)
     tables = {}
     for b in backends:
         try:
@@ -157,3 +159,20 @@ def replay(ctx, stream, case):
     res = StreamResult("replay")
     check_map(ctx, traces, area, "?", ar, case["t"], case["width_fraction"], res, stream, ("loky", "threading"))
     return res.disagreements[0] if res.disagreements else None
+
+
+def replay_finding(ctx, k):
+    """F11: a single vertical trace has zero x-extent -> create_grid makes no cells and asserts"""
+    import_fractopo()
+    import geopandas as gpd
+    from shapely.geometry import LineString, box
+
+    from fractopo import Network
+
+    net = Network(trace_gdf=gpd.GeoDataFrame(geometry=[LineString([(0, -3), (0, 3)])]), area_gdf=gpd.GeoDataFrame(geometry=[box(-5, -5, 5, 5)]), name="f11",
+                  determine_branches_nodes=True, snap_threshold=0.01)
+    try:
+        net.contour_grid(cell_width=1.0)
+        return False
+    except AssertionError:
+        return True
